@@ -914,7 +914,7 @@ impl<const N: usize> IoEx<N> {
                 let rs = st.rs;
                 let b: &mut CircularBuffer<N, u8> = &mut self.buf;
                 let r = window(|| {
-                    let mut d = crate::with_range!(rs, |r| b.drain(r));
+                    let mut d = std::mem::ManuallyDrop::new(crate::with_range!(rs, |r| b.drain(r)));
                     let mut out: Vec<(u8, u8)> = Vec::new();
                     for w in word.iter() {
                         match *w {
@@ -932,6 +932,7 @@ impl<const N: usize> IoEx<N> {
                         }
                     }
                     let l = d.len();
+                    drop(std::mem::ManuallyDrop::into_inner(d));
                     (out, l)
                 });
                 let _ = crate::alloc::take_op_allocs();
